@@ -63,6 +63,10 @@ class FirstHeader(BytesInterface):
             else pdu_type
         )
         self.is_control_message: bool = bool(self.pdu_type.value[0])
+        # the reserved bit of a simple text message is always set on the wire (see as_bytes)
+        self.is_reserved = (
+            self.is_reserved or self.pdu_type == TMSPDUType.SIMPLE_TEXT_MESSAGE
+        )
 
     def set_has_more_headers(self, has: bool) -> "FirstHeader":
         self.has_more_headers = has
